@@ -97,7 +97,8 @@ class C11Scenario(ChangeScenario):
         script = self.params['script']
         calls = [(t, p['retry']) for t, k, p in env.obs if k == 'call' and p['id'] == hid]
         kills = sum(1 for _, k, _ in env.obs if k == 'kill')
-        disturbed = bool(env.deviations) or bool(self.params.get('downtime'))    # downtimes: the statement-level laws
+        idle_edits = self.params.get('variant') == 'idle-edits'    # attempts postponed by the idle time: the statement-level laws, per cycle
+        disturbed = bool(env.deviations) or bool(self.params.get('downtime')) or idle_edits    # downtimes: the statement-level laws
         mode, retries, timeout, backoff = cfg['errors'], cfg['retries'], cfg['timeout'], cfg['backoff']
         if not calls:
             if not disturbed:
@@ -140,6 +141,33 @@ class C11Scenario(ChangeScenario):
                                      f"{carrier} handler {hid} cfg={cfg} script={script}: invoked at {got}, the error policy says {want} (ends: {status})",
                                      carrier=carrier, cls=cls))
             # the persisted verdict for change handlers (while the cycle is not closed) is checked via behaviour above.
+        elif idle_edits:
+            # a timer whose attempts are postponed by the idle time: the limits hold per cycle (a cycle ends with a success - or an ignored
+            # error -, the next call opens a new one with retry 0)
+            outs = parse_script(script)
+            cycles: list[list[tuple[float, int, Any]]] = [[]]
+            for n, (t, k) in enumerate(calls):
+                o = outs[min(n, len(outs) - 1)]
+                cycles[-1].append((t, k, o))
+                if o.kind == 'ok' or (o.kind == 'arb' and mode == 'IGNORED'):
+                    cycles.append([])
+            for cyc in cycles:
+                if not cyc:
+                    continue
+                ks = [k for _, k, _ in cyc]
+                if ks != list(range(len(ks))):
+                    out.append(self.viol(env, 'retry-number-jump', f"{hid}: retry numbers {ks} within one cycle (attempts at {[t for t, _, _ in cyc]}): the attempts are not counted",
+                                         carrier=carrier))
+                if retries is not None and len(cyc) > retries:
+                    out.append(self.viol(env, 'too-many-invocations', f"{hid}: {len(cyc)} invocations in one cycle with retries={retries}: at {[t for t, _, _ in cyc]}", carrier=carrier))
+                if timeout is not None:
+                    late = [t for t, _, _ in cyc[1:] if t - cyc[0][0] >= timeout]
+                    if late:
+                        out.append(self.viol(env, 'attempt-after-timeout', f"{hid}: attempts at {late}, timeout {timeout} after the first at {cyc[0][0]}", carrier=carrier))
+                for (t1, _, o1), (t2, _, _) in zip(cyc, cyc[1:]):
+                    need = (o1.delay or 0.0) if o1.kind == 'temp' else ((backoff if backoff is not None else DEFAULT_BACKOFF) if o1.kind == 'arb' else 0.0)
+                    if t2 - t1 < need + o1.sleep:
+                        out.append(self.viol(env, 'retried-too-soon', f"{hid}: attempt at t={t2}, only {t2 - t1}s after the failed one at {t1} (needs {need}+{o1.sleep})", carrier=carrier))
         else:
             # crashes / timing deviations: the weaker, statement-level laws
             outs = parse_script(script)
@@ -268,6 +296,14 @@ def build(carrier: str, cfg: dict, script: list[str], **kw: Any) -> Scenario:
         handlers = [dict(id='tm', on='timer', interval=INTERVAL, script=script, **h)]
         return C11Scenario(handlers=handlers, user=[(1.0, 'create', 'a')], horizon=50.0, cfg=cfg, script=script, carrier=carrier, subject='tm',
                            settings=st, **kw)
+    if carrier == 'timer+idle':
+        # a timer that also waits for the object to be left alone (idle=2): essential edits land inside the delays between its attempts,
+        # so that every retry has to wait out the idle time once more. The limits count attempts, however long they are postponed.
+        handlers = [dict(id='c1', on='create', script=['ok']), dict(id='u1', on='update', script=['ok']),
+                    dict(id='tm', on='timer', interval=INTERVAL, idle=2.0, script=script, **h)]
+        user = [(1.0, 'create', 'a')] + [(float(t), 'spec', 'a', int(t)) for t in kw.pop('edits')]
+        return C11Scenario(handlers=handlers, user=user, horizon=50.0, cfg=cfg, script=script, carrier='timer', subject='tm', variant='idle-edits',
+                           settings=st, **kw)
     if carrier == 'activity':
         return ActivityScenario(cfg=cfg, script=script)
     if carrier == 'activity+sibling':
@@ -293,6 +329,11 @@ def run(tier: str, seed: int) -> CheckResult:
     for carrier in ('daemon+sibling', 'timer+sibling'):
         for cfg, script in itertools.product(cfgs, (['perm'], ['arb'], ['temp', 'temp', 'temp'], ['temp', 'ok'], ['ok'])):
             plain.append(build(carrier, cfg, script, delays=False, early_user=False, time_dev=False))
+    for cfg in cfgs:
+        if cfg['retries'] is None and cfg['timeout'] is None:
+            continue
+        for script, edits in ((['temp'], (5, 9, 13)), (['temp'], (5,)), (['temp1'], (3.5, 6.5, 9.5, 12.5)), (['arb'], (4, 8, 12, 16)), (['temp', 'temp', 'ok'], (5, 9))):
+            plain.append(build('timer+idle', cfg, script, edits=edits, delays=False, early_user=False, time_dev=False))
     crash = [build(carrier, cfg, script, kills=True, delays=False, early_user=False, time_dev=False)
              for carrier in ('change', 'sub')
              for cfg in [c for c in cfgs if c['backoff'] == 2.0 and c['errors'] in (None, 'PERMANENT')]
